@@ -335,6 +335,32 @@ def read_build(ctx: Ctx, src: Path) -> list[dict]:
     }
     if maximal != set(expected):
         raise Untranslatable(f"build: paths using function_folder are {sorted(maximal)}")
+    # the tag files: one folder, assigned once, load.json / tick.json directly inside it, read and written at that same path
+    assigns = {}
+    for node in ast.walk(fn):
+        if isinstance(node, (ast.Assign, ast.AnnAssign, ast.AugAssign)):
+            for tg in (node.targets if isinstance(node, ast.Assign) else [node.target]):
+                for nm in ([tg] if isinstance(tg, ast.Name) else tg.elts if isinstance(tg, (ast.Tuple, ast.List)) else []):
+                    if isinstance(nm, ast.Name) and nm.id in ("function_folder", "functions_tags_folder", "load_tag", "tick_tag"):
+                        assigns.setdefault(nm.id, []).append(ast.unparse(node.value) if node.value is not None else "")
+        if isinstance(node, (ast.For, ast.With, ast.NamedExpr)):
+            for nm in ast.walk(node.target if isinstance(node, (ast.For, ast.NamedExpr)) else ast.Module(body=[], type_ignores=[])):
+                if isinstance(nm, ast.Name) and nm.id in ("function_folder", "functions_tags_folder", "load_tag", "tick_tag"):
+                    raise Untranslatable(f"build: {nm.id} is rebound by a loop / walrus")
+    want = {"function_folder": sorted(["'function'", "'functions'"]),
+            "functions_tags_folder": ["output_folder / 'data' / 'minecraft' / 'tags' / function_folder"],
+            "load_tag": ["functions_tags_folder / 'load.json'"], "tick_tag": ["functions_tags_folder / 'tick.json'"]}
+    got = {k: sorted(v) for k, v in assigns.items()}
+    if got != want:
+        raise Untranslatable(f"build: tag-file paths are assigned as {got}")
+    n_lit = sum(1 for node in ast.walk(fn) if isinstance(node, ast.Constant) and node.value in ("function", "functions"))
+    if n_lit != 2:
+        raise Untranslatable(f"build: {n_lit} literals 'function'/'functions' (expected the two of the if/else)")
+    rft = find_fn(tree, "read_func_tag")
+    for node in ast.walk(rft):
+        if (isinstance(node, ast.BinOp) and isinstance(node.op, ast.Div)) or \
+                (isinstance(node, ast.Constant) and node.value in ("function", "functions", "tags", "load.json", "tick.json", "minecraft")):
+            raise Untranslatable("read_func_tag builds a path of its own")
     # any other spelling of the function folder in build would bypass function_folder
     for node in ast.walk(fn):
         if isinstance(node, ast.Constant) and isinstance(node.value, str) and re.search(r"\bfunctions?\b", node.value) \
